@@ -529,14 +529,15 @@ theorem hexRing_distance (n : Nat) (p : Int × Int) (h : p ∈ hexRing n) :
 example : (1, 1) ∈ hexRing 2 ∧ hexQR 1 = [(0, 0), (1, 0), (0, 1), (-1, 1), (-1, 0), (0, -1), (1, -1)] := by decide
 
 /-- the points and the weight of the hexagonal grid in closed form: hexagon `(q, r)` sits at
-`((r − q)·D/2, (q + r)·2a) + centre` with apothem `a = D√3/4` (flat top: the two coordinates exchanged *before* the
-centre is added — the repaired code, D86), and every
+`((r − q)·D/2, (q + r)·2a) + centre` with apothem `a = D√3/4` (flat top: the two coordinates exchanged *after* the
+centre was added, as the code on /repo HEAD does — so a flat-topped grid is centred on `(cy, cx)`, the centre exchanged:
+observed, outside the property; proposed repair in pending_fixes/D86-hexagonal-grid-center.diff), and every
 hexagon weighs `2 a² √3` — the area of a regular hexagon of circum-diameter `D`, which is `3√3/8·D²` when `s3² = 3`. -/
 theorem hex_points_weights (s3 d : Rat) (rings : Nat) (cx cy : Rat) :
     (makeHexGrid s3 d rings true cx cy).coords.points =
       (hexQR rings).map (fun p => [((-p.1 + p.2 : Int) : Rat) * d / 2 + cx, ((p.1 + p.2 : Int) : Rat) * (d * s3 / 4) * 2 + cy]) ∧
     (makeHexGrid s3 d rings false cx cy).coords.points =
-      (hexQR rings).map (fun p => [((p.1 + p.2 : Int) : Rat) * (d * s3 / 4) * 2 + cx, ((-p.1 + p.2 : Int) : Rat) * d / 2 + cy]) ∧
+      (hexQR rings).map (fun p => [((p.1 + p.2 : Int) : Rat) * (d * s3 / 4) * 2 + cy, ((-p.1 + p.2 : Int) : Rat) * d / 2 + cx]) ∧
     (makeHexGrid s3 d rings true cx cy).weights = .scalar (2 * (d * s3 / 4 * (d * s3 / 4)) * s3) ∧
     (s3 * s3 = 3 → 2 * (d * s3 / 4 * (d * s3 / 4)) * s3 = 3 * s3 / 8 * (d * d)) := by
   refine ⟨?_, ?_, rfl, ?_⟩
